@@ -157,6 +157,33 @@ func nearMisses(run *vk.Run, w *world.World, pt []byte) {
 		}
 		run.Distinct(sig)
 	}
+	// long lists: every identity tried is accounted for, however many there are (no fixed-size collection of causes)
+	for _, n := range []int{15, 16, 17, 33, 64, 257} {
+		var list []age.Identity
+		for k := 0; k < n; k++ {
+			switch k % 3 {
+			case 0:
+				x, _ := age.GenerateX25519Identity()
+				list = append(list, x)
+			case 1:
+				list = append(list, a)
+			default:
+				list = append(list, b)
+			}
+		}
+		r, derr := age.Decrypt(bytes.NewReader(ofile), list...)
+		run.Eval(1)
+		var nm *age.NoIdentityMatchError
+		sig := fmt.Sprintf("long-identity-list:%d", n)
+		if r != nil || derr == nil {
+			run.Violation("C04:opened-by-non-matching:"+sig, fmt.Sprintf("a list of %d non-matching identities obtained a reader", n), nil)
+		} else if !errors.As(derr, &nm) {
+			run.Violation("C04:not-the-no-match-error:"+sig, fmt.Sprintf("a list of %d non-matching identities: error is %T: %v", n, derr, derr), nil)
+		} else if len(nm.Errors) != n {
+			run.Violation("C04:no-match-causes:"+sig, fmt.Sprintf("%d causes collected for a list of %d identities", len(nm.Errors), n), nil)
+		}
+		run.Distinct(sig)
+	}
 	// the other direction: the file's passphrase carries the extra character, the identity's does not
 	for _, name := range []string{"trailing-lf", "trailing-cr", "trailing-space", "trailing-tab"} {
 		r2, _ := age.NewScryptRecipient(variants[name])
